@@ -949,17 +949,36 @@ func runOneSimClose(c scCase) (fails []monFail, info string) {
 				} else {
 					// closing period: only copies of the CONNECTION_CLOSE datagram, with back-off
 					period := 3 * time.Duration(snaps[i].PTONoAckDelay)
-					arrivals, arrivalsMax := 0, 0
-					for _, d := range log {
-						if d.Dir != 1-i || strings.Contains(d.Act, "drop") {
-							continue
+					// what the stand-in must answer: a copy on arrivals 1, 2, 4, 8, ... as long as the copies stay
+					// within three times the bytes that arrived for the closed connection (RFC 9000 10.2.1)
+					expected := func(boundary bool) (copies, n int) {
+						var recv, sent int
+						psize := len(after[0].Data)
+						for _, d := range log {
+							if d.Dir != 1-i || strings.Contains(d.Act, "drop") {
+								continue
+							}
+							at := d.Time + lat
+							in := at > closeAt[i] && at < closeAt[i]+period
+							if boundary && (at == closeAt[i] || at == closeAt[i]+period) {
+								in = true
+							}
+							if !in {
+								continue
+							}
+							n++
+							recv += len(d.Data)
+							if n&(n-1) == 0 && sent+psize <= 3*recv {
+								copies++
+								sent += psize
+							}
 						}
-						if at := d.Time + lat; at > closeAt[i] && at < closeAt[i]+period {
-							arrivals++
-							arrivalsMax++
-						} else if at == closeAt[i] || at == closeAt[i]+period {
-							arrivalsMax++
-						}
+						return
+					}
+					eMin, arrivals := expected(false)
+					eMax, arrivalsMax := expected(true)
+					if eMin > eMax {
+						eMin, eMax = eMax, eMin
 					}
 					// (beyond the closing period a server with a reset key answers with stateless resets)
 					var inPeriod []dgram
@@ -975,15 +994,8 @@ func runOneSimClose(c scCase) (fails []monFail, info string) {
 							break
 						}
 					}
-					bitsOf := func(x int) (n int) {
-						for ; x > 0; x >>= 1 {
-							n++
-						}
-						return
-					}
-					// copies are due on arrivals 1, 2, 4, 8, ...: floor(log2 n)+1 of them
-					if cp := len(after) - 1; cp > bitsOf(arrivalsMax) || cp < bitsOf(arrivals) {
-						fail("simclose/backoff", fmt.Sprintf("%s retransmitted its CONNECTION_CLOSE %d times for %d..%d datagrams arriving in its closing period (expected %d..%d)", sd.name, cp, arrivals, arrivalsMax, bitsOf(arrivals), bitsOf(arrivalsMax)))
+					if cp := len(after) - 1; cp > eMax || cp < eMin {
+						fail("simclose/backoff", fmt.Sprintf("%s retransmitted its CONNECTION_CLOSE %d times for %d..%d datagrams arriving in its closing period (expected %d..%d: packets 1, 2, 4, 8, ... within 3x the bytes received)", sd.name, cp, arrivals, arrivalsMax, eMin, eMax))
 					}
 				}
 			}
